@@ -85,6 +85,9 @@ pub fn tape_cases(
         let mut b = cell.borrow_mut();
         let (ctx, f) = &mut *b;
         ctx.progress.fetch_add(1, Ordering::Relaxed);
+        if let Ok(mut c) = ctx.current.lock() {
+            *c = format!("{{\"grammar\":{:?},\"rule\":{:?},\"tape\":{:?}}}", gi.g.id(), gi.rules[rule].0, tape);
+        }
         match f(ctx, gi, rule, &tape) {
             CaseResult::Ok => Ok(()),
             CaseResult::Known(id) => {
@@ -159,6 +162,27 @@ pub fn input_from(gi: &GInfo, rule: usize, tape: &[u8]) -> (String, usize) {
     // keep inputs small: both parsers recurse
     let s: String = s.chars().take(64).collect();
     (s, 0)
+}
+
+/// The properties quantify over well-founded cases only (no left recursion, no repetition
+/// that iterates without consuming): the reference interpreter must finish on the case before
+/// either parser is started on it - pest and pest-typed both loop forever otherwise.
+pub fn well_founded(ctx: &mut Ctx, gi: &GInfo, rule: usize, host: &str, lo: usize, hi: usize) -> bool {
+    let r = crate::interp::run(gi.ir, &crate::interp::Cfg::default(), &gi.rules[rule].0, host, lo, hi);
+    if !r.defined() {
+        ctx.ev.count("excluded.not_well_founded_or_budget");
+        return false;
+    }
+    // the defect models can differ in termination from the specification (K1: skip rules
+    // that skip inside themselves)
+    if ctx.open("K1") && (gi.ir.has_ws() || gi.ir.has_comment()) {
+        let k = crate::interp::run(gi.ir, &crate::interp::Cfg { k1: true, ..crate::interp::Cfg::default() }, &gi.rules[rule].0, host, lo, hi);
+        if !k.defined() {
+            ctx.ev.count("excluded.not_well_founded_under_K1");
+            return false;
+        }
+    }
+    true
 }
 
 pub fn hash_case(gi: &GInfo, rule: usize, input: &str, extra: u64) -> u64 {
